@@ -142,6 +142,7 @@ class Checker:
     # ---------- verdict ----------
     def finish(self):
         wall = time.time() - self.t0
+        if run.RETRIES: self.extra['runs_repeated_after_timeout'] = [list(x) for x in run.RETRIES[:20]]      # see run.run_impl (rusty-leveldb iterator spin)
         failed_obl = [(n, d) for n, ok, d in self.obligations if not ok]
         lines = []
         for fid, text in self.known: lines.append('KNOWN-FINDING: property=%s %s' % (self.prop, text))
